@@ -174,11 +174,13 @@ CHECKS = {
 GEN_KEYMAP = lambda k: -1 if k < 0 else min(15, 3 * k)
 
 
-def gen_scripts(seed, per_worker, workers, max_ops, pick_per_tag, timeout):
+def gen_scripts(seed, per_worker, workers, max_ops, pick_per_tag, timeout, repair=False, require_tag=None):
     d = c.scratch('gen')
     outdir = os.path.join(d, 'out'); os.makedirs(outdir)
     cfg = open(os.path.join(c.SPEC, 'LsmGen.cfg')).read()
     cfg = cfg.replace('OutDir = "/tmp/lsmgen_out"', 'OutDir = "%s"' % outdir).replace('MaxOps = 14', 'MaxOps = %d' % max_ops)
+    if repair:
+        cfg = cfg.replace('AllowRepair = FALSE', 'AllowRepair = TRUE').replace('INVARIANT ReadLatest\n', 'INVARIANT ReadLatestOrD1\nINVARIANT IterLatest\n').replace('INVARIANT Recency\n', '')
     cfgp = os.path.join(d, 'gen.cfg'); open(cfgp, 'w').write(cfg)
     r = c.tlc('LsmGen', cfgp, workers=workers, timeout=timeout, simulate=per_worker, depth=max_ops + 1, heap='6g', deadlock=False, seed=seed)
     if r.violated:
@@ -194,6 +196,7 @@ def gen_scripts(seed, per_worker, workers, max_ops, pick_per_tag, timeout):
             continue
         key = json.dumps([[o['op'], o['a'], o['b'], o['c']] for o in rec['ops']])
         if key in seen: continue
+        if require_tag and require_tag not in rec['tags']: continue
         seen.add(key)
         byfile.append(rec)
     # choose scripts so that every tag is represented, rare tags first
@@ -219,6 +222,7 @@ def script_text(rec):
         elif op == 'flush': lines += ['flush', 'getall']
         elif op == 'reopen': lines += ['reopen', 'getall']
         elif op == 'compact': lines += ['compact %d %d %d' % (o['a'], GEN_KEYMAP(o['b']), GEN_KEYMAP(o['c'])), 'getall']
+        elif op == 'repair': lines += ['repair %d' % o['a'], 'getall']
         elif op == 'snap': lines.append('snap 1')
         elif op == 'rel': lines.append('rel 1')
     lines += ['getall', 'scan', 'reopen', 'getall']
@@ -291,3 +295,77 @@ def _report_gen(prop, out, ex, layer, r, evs):
     open(os.path.join(rd, 'README'), 'w').write('Reproduce: cd /verif && ./check replay %s\nA behaviour generated from LsmGen.tla (tags %s), replayed by the seq driver, is rejected by %s: %s at %s\n' % (rd, ex.tags, layer, r['violated'], json.dumps(slim)[:600]))
     out.violation('%s rejects a generated behaviour (tags %s): %s at %s' % (layer, ','.join(ex.tags), r['violated'] or 'no action explains', json.dumps(slim)[:240]), rd,
                   dict(kind='gen', layer=layer, violated=r['violated']))
+
+
+# =============================================================================================
+# C19: repair
+# =============================================================================================
+def run_c19(tier, seed):
+    prop = 'C19'
+    t0 = time.time(); out = Outcome(prop); quick = tier == 'quick'
+    mc = {}
+    # design: with repair in the model every wrong point lookup has the D1 shape and iterators are always right
+    r = c.tlc('Lsm', 'Lsm_repair.cfg', workers=c.NCPU, timeout=900, heap='12g', deadlock=False)
+    if r.error and not r.violated: raise Broken('Lsm repair model check failed: %s' % r.error)
+    mc['Lsm_repair_MC'] = dict(states=r.distinct, transitions=r.generated, invariants=['ReadLatestOrD1', 'IterLatest', 'LevelsWellFormed'], wall_s=round(r.wall, 1))
+    if r.violated:
+        rd = c.replay_dir(prop, 'mc'); open(os.path.join(rd, 'tlc.out'), 'w').write(r.out)
+        out.violation('Lsm.tla with repair: %s violated' % r.violated, rd, dict(kind='mc', violated=r.violated))
+    # the known defect D1 is reachable in the design (witness kept as evidence)
+    r2 = c.tlc('Lsm', 'Lsm_repair_d1.cfg', workers=c.NCPU, timeout=600, heap='8g', deadlock=False)
+    mc['D1_witness_in_model'] = dict(found=(r2.violated == 'ReadLatest'), steps=len(r2.trace))
+    # generated behaviours ending in / passing through a repair, replayed with the real ldb_repair + ldb_open
+    chosen, stats, d = gen_scripts(seed, 250 if quick else 3000, 8, 14, 400, 200 if quick else 900, repair=True, require_tag='repair')
+    if chosen is None:
+        rr = stats; rd = c.replay_dir(prop, 'gen'); open(os.path.join(rd, 'tlc.out'), 'w').write(rr.out)
+        out.violation('LsmGen.tla (repair): %s violated' % rr.violated, rd, dict(kind='mc', violated=rr.violated))
+        chosen = []; stats = {}
+    chosen = chosen[:(60 if quick else 600)]
+    lib = c.build_lib(); exe = c.build_driver('seq', lib)
+    jobs = []
+    for i, rec in enumerate(chosen):
+        sp = os.path.join(d, 's%d.txt' % i)
+        # follow-up workload after the repair: new writes must take precedence and persist
+        txt = script_text(rec).rstrip('\n').split('\n')
+        txt = txt[:-4] + ['put 0', 'put 3', 'del 6', 'put 9', 'getall', 'flush', 'getall', 'scan', 'reopen', 'getall', 'scan']
+        open(sp, 'w').write('\n'.join(txt) + '\n')
+        ex = sr.Exec(seed * 1000 + i, 0, 'mixed', bits=0); ex.script = sp; ex.tags = rec['tags']
+        jobs.append(ex)
+    c.pmap(lambda ex: sr.run_exec(exe, ex, env={'VERIF_SCRIPT': ex.script}), jobs, c.NCPU)
+    from . import p_api
+    keep = lambda e: e['e'] in sr.API_ALL or e['e'] == 'repair'
+    traces = []; owners = []
+    for ex in jobs:
+        if ex.rc != 0:
+            rd = c.replay_dir(prop, 'gen'); shutil.copy(ex.script, os.path.join(rd, 'script.txt'))
+            json.dump(dict(kind='script', prop=prop, why='driver exit %s (repair or open failed)' % ex.rc, tags=ex.tags), open(os.path.join(rd, 'replay.json'), 'w'))
+            out.violation('repair / open failed or the execution aborted (exit %s)' % ex.rc, rd, dict(kind='driver_exit'))
+            continue
+        traces.append([e for e in sr.load_events(ex.trace) if keep(e)]); owners.append(ex)
+    res = sr.validate_batches('KvTrace', 'KvTrace_C19.cfg', traces, batch_lines=6000, nproc=6)
+    d1 = 0
+    for r in res:
+        d1 += len([p for p in r['res'].printed if '"d1"' in p])
+        if not r['accepted'] and not out.full():
+            ex = owners[r['exec_index']]
+            _report_gen(prop, out, ex, 'KvTrace', r, traces[r['exec_index']])
+    st = dict(stats); st.pop('tag_counts', None)
+    st.update(dict(traces=len(owners), states=sum(r['states'] for r in res), d1_stale_lookups=d1,
+                   variants=sorted(set(o['a'] for rec in chosen for o in rec['ops'] if o['op'] == 'repair'))))
+    if d1 > 0:
+        out.violation('point lookup after repair returned an older value (iterator correct): %d lookups' % d1, '-', dict(kind='d1'))
+    mc['LsmGen_repair'] = st
+    for ex in jobs:
+        if ex.dir: c.rmtree(ex.dir)
+    c.rmtree(d)
+    rc = out.finish()
+    cov = dict(states=sum(v.get('states', 0) for v in mc.values()), transitions=sum(v.get('transitions', v.get('states', 0)) for v in mc.values()),
+               traces_validated_against_impl=st.get('traces', 0), samples=[dict(tags=chosen[0]['tags'], script=script_text(chosen[0]).split('\n')[:16])] if chosen else [{}],
+               layers=mc, exhaustive=False)
+    c.write_evidence(prop, tier, seed, 'model_checking', cov, time.time() - t0, violations=len(out.violations),
+                     assumptions=['metadata loss variants: CURRENT lost, MANIFEST lost, both, MANIFEST truncated',
+                                  'the known defect D1 (stale point lookup after repair, iterator correct) is tolerated by the named deviation in KvTrace (AllowD1) and reported as KNOWN-FINDING; any other mismatch is a violation'])
+    return rc
+
+
+CHECKS['C19'] = run_c19
